@@ -97,6 +97,20 @@ class Collection(NadaType):
             f"{self.__class__.__name__} is not a valid Nada Collection"
         )
 
+    def __eq__(self, other):
+        # The inherited dataclass equality returned a Python bool (often True for
+        # two different inputs), silently steering `==`, `in`, `index`, `count`.
+        raise NotAllowedException(
+            "Nada collections cannot be compared with ==; their values are only known at run time."
+        )
+
+    def __ne__(self, other):
+        raise NotAllowedException(
+            "Nada collections cannot be compared with !=; their values are only known at run time."
+        )
+
+    __hash__ = None  # type: ignore
+
     def retrieve_inner_type(self):
         """Retrieves the child type of this collection"""
         if isinstance(self.contained_type, TypeVar):
